@@ -197,6 +197,10 @@ func sGenSet(T *sim.Tape, allowNoDen bool) *sSet {
 		sp := sSpellings(s.points[p].at)
 		s.pspell[p] = sp[spellIdx(len(sp))]
 	}
+	baseOnly := -1
+	if nb >= 2 && T.Intn(6, "baseline-only-benchmark") == 0 {
+		baseOnly = 1 + T.Intn(nb-1, "which-baseline-only")
+	}
 	for e := range s.exps {
 	  for _, tab := range s.expTab[e] {
 		pts := s.expPts[e]
@@ -232,8 +236,26 @@ func sGenSet(T *sim.Tape, allowNoDen bool) *sSet {
 					}
 				}
 			}
+			zeroDen := T.Intn(14, "zero-baseline") == 0 // e.g. 0 allocs/op in every baseline run
+			if zeroDen {
+				for u := range den {
+					for l := range den[u] {
+						den[u][l] = 0
+					}
+				}
+			}
 			for pk, pi := range pts {
+				if bi == baseOnly {
+					break // this benchmark was only ever measured on the baseline toolchain
+				}
 				num := mkVals()
+				if zeroDen && T.Bool("zero-numerator") {
+					for u := range num {
+						for l := range num[u] {
+							num[u][l] = 0
+						}
+					}
+				}
 				if mirror && bi == 1 && pk == 0 && prevNum != nil && len(prevNum[0]) > 0 {
 					num, den = prevDen, prevNum // the mirror image of the previous benchmark's cell
 					nlines = len(num[0])
@@ -299,8 +321,28 @@ func (r *sResult) text() string {
 	return b.String()
 }
 
+// the filter expression of the current run and what it means for the model
+type sFilter struct {
+	text  string
+	unit  func(u string) bool
+	bench func(b string) bool // by base name
+}
+
+var sAll = func(string) bool { return true }
+var sFilters = []sFilter{
+	{".unit:/.*/", sAll, sAll},
+	{".unit:/.*/", sAll, sAll},
+	{".unit:sec/op", func(u string) bool { return u == "sec/op" }, sAll},
+	{"-.unit:widgets", func(u string) bool { return u != "widgets" }, sAll},
+	{".unit:(B/op OR widgets)", func(u string) bool { return u != "sec/op" }, sAll},
+	{"-.name:Sort", sAll, func(b string) bool { return b != "Sort" }},
+	{".unit:/.*/ AND (.name:Encode OR .name:Hash)", sAll, func(b string) bool { return b == "Encode" || strings.HasPrefix(b, "Hash") }},
+	{"*", sAll, sAll},
+}
+var sFilt = sFilters[0]
+
 func sOpts(withTable bool, warns *[]string) *BuilderOptions {
-	o := &BuilderOptions{Filter: ".unit:/.*/", Series: "numerator_stamp", Table: "", Experiment: "runstamp", Compare: "toolchain",
+	o := &BuilderOptions{Filter: sFilt.text, Series: "numerator_stamp", Table: "", Experiment: "runstamp", Compare: "toolchain",
 		Numerator: "Tip", Denominator: "Base", NumeratorHash: "numerator_hash", DenominatorHash: "denominator_hash", Ignore: "",
 		Warn: func(format string, args ...interface{}) { *warns = append(*warns, fmt.Sprintf(format, args...)) }}
 	if withTable {
@@ -366,6 +408,9 @@ func (s *sSet) modelDump(withTable bool, policy int) string {
 	}
 	var tks []tk
 	for u := range units {
+		if !sFilt.unit(u) {
+			continue
+		}
 		if !withTable {
 			tks = append(tks, tk{u, ""})
 			continue
@@ -408,6 +453,9 @@ func (s *sSet) modelDump(withTable bool, policy int) string {
 				continue
 			}
 			for _, bench := range sBenches {
+				if !sFilt.bench(bench) {
+					continue
+				}
 				var den []float64
 				hasDen := false
 				for _, et := range grp {
@@ -595,6 +643,8 @@ func c18Run(t *testing.T, r *sim.Run, tier string) {
 		r.Lane = "combine"
 	}
 	withTable := T.Bool("with-table")
+	sFilt = sFilters[T.Intn(len(sFilters), "filter")]
+	r.Logf("filter %q", sFilt.text)
 	s := sGenSet(T, policy == DUPE_REPLACE)
 	for i, res := range s.results {
 		if i < 40 {
@@ -694,6 +744,13 @@ func c18Run(t *testing.T, r *sim.Run, tier string) {
 				nv, dv := c.Numerator.Values, c.Denominator.Values
 				lo, hi := nv[0]/dv[len(dv)-1], nv[len(nv)-1]/dv[0]
 				tol := 1e-12 * hi
+				if !(nv[0] > 0 && dv[0] > 0) {
+					lo, hi = math.Inf(-1), math.Inf(1) // the attainable-range clause speaks of positive measurements; order and reproducibility hold regardless
+					r.Hit("bootstrap summary of a cell with zero measurements")
+				}
+				if math.IsNaN(sum.Low) || math.IsNaN(sum.Center) || math.IsNaN(sum.High) {
+					r.Fail("bootstrap", "summary-not-a-number", "summary of %q at %q (confidence %v, N %d): low %v centre %v high %v for num %v den %v", bn, ser, conf, N, sum.Low, sum.Center, sum.High, nv, dv)
+				}
 				if !(sum.Low <= sum.Center && sum.Center <= sum.High) {
 					sig := "low-centre-high-order"
 					if sum.Low <= sum.Center*(1+4e-16) && sum.Center <= sum.High*(1+4e-16) {
